@@ -430,7 +430,7 @@ def _(c):
             Iff(new.clearRegionsAfterPrintFinishes, old.clearRegionsAfterPrintFinishes),
             Iff(new.mayShrinkRegionsWhilePrinting, old.mayShrinkRegionsWhilePrinting),
             new.state is f.self.gcodeHandlers.state)
-    c.ensures("C11.lifecycle-automaton", lifecycle, props=("C11", "C10", "C13"))
+    c.ensures("C11.lifecycle-automaton", lifecycle, props=("C11", "C10", "C13", "C01", "C02", "C03", "C04", "C05", "C06", "C14", "C15"))
 
 
 @contract("ExcludeRegionState.ExcludeRegionState.resetState")
